@@ -88,8 +88,16 @@ fn build_ffi(out: &str) -> PathBuf {
             }
         }
     };
-    let o = std::process::Command::new("cargo")
-        .args(["build", "--offline", "--locked", "--manifest-path"])
+    // same profile as this binary (check.py also runs a release build of the harness in the thorough tier):
+    // overflow checks and debug assertions are then on, or off, on both sides
+    let release = !cfg!(debug_assertions);
+    let mut cmd = std::process::Command::new("cargo");
+    cmd.args(["build", "--offline", "--locked"]);
+    if release {
+        cmd.arg("--release");
+    }
+    let o = cmd
+        .arg("--manifest-path")
         .arg(format!("{repo}/ffi/Cargo.toml"))
         .arg("--target-dir")
         .arg(&tdir)
@@ -101,7 +109,7 @@ fn build_ffi(out: &str) -> PathBuf {
         eprintln!("the ffi crate does not build from {repo}:\n{}", String::from_utf8_lossy(&o.stderr));
         std::process::exit(3);
     }
-    tdir.join("debug").join("libcoupe.so")
+    tdir.join(if release { "release" } else { "debug" }).join("libcoupe.so")
 }
 
 // ---------------------------------------------------------------- data sets
@@ -841,6 +849,10 @@ fn gen_case(r: &mut Rng, tier: &str, slice_only: bool) -> Case {
             // the glue never looks at the points' tag: mostly the honest one, sometimes another
             let ptag = if r.chance(4, 5) { 2 } else { r.below(2) as u8 };
             c.points = Some(wrap(r, prepr, ptag, n, w, pcells));
+            if ptag != 2 {
+                // finding candidate reported with C17: the glue never checks the points' Type tag
+                c.kf = "ffi-points-type-unchecked";
+            }
             // weights: same length, or the mismatched-length stream
             let mut wn = n;
             if r.chance(1, 8) {
@@ -1384,7 +1396,7 @@ fn main() {
             },
             if c.kf.is_empty() { String::new() } else { format!(",\"kf\":\"{}\"", c.kf) }
         );
-        let key = format!("{}|{}|{:?}|{:?}|{:?}|{}|{}|{}|{}|{:?}", c.entry, c.dim, c.points, c.weights, c.adj, c.a, c.b, c.c, c.f.to_bits(), c.p0);
+        let key = format!("{}|{}|{}|{:?}|{:?}|{:?}|{}|{}|{}|{}|{:?}", c.mt, c.entry, c.dim, c.points, c.weights, c.adj, c.a, c.b, c.c, c.f.to_bits(), c.p0);
         let nontrivial = c.weights.len >= 2;
         w.push(coq, json, &key, nontrivial, &c.family);
     }
